@@ -202,7 +202,8 @@ def drive(pid, tier, seed, workers=None):
             new_classes.append(cls)
 
     replay_paths = {}
-    rdir = os.path.join(VERIF, "replays", pid)
+    outroot = os.environ.get("VERIF_OUT", VERIF)     # scratch runs (self-test against a patched copy) write elsewhere
+    rdir = os.path.join(outroot, "replays", pid)
     if os.path.isdir(rdir):
         for _f in os.listdir(rdir):
             if f"-s{seed}-{tier}-" in _f:
@@ -244,8 +245,8 @@ def drive(pid, tier, seed, workers=None):
     ev = {"property_id": pid, "tier": tier, "seed": seed, "level": prop.LEVEL, "coverage": cov,
           "assumptions": prop.ASSUMPTIONS, "wall_s": round(wall, 2),
           "violations": sum(len(by_cls[c]) for c in new_classes)}
-    os.makedirs(os.path.join(VERIF, "evidence"), exist_ok=True)
-    with open(os.path.join(VERIF, "evidence", f"{pid}.json"), "w") as f:
+    os.makedirs(os.path.join(outroot, "evidence"), exist_ok=True)
+    with open(os.path.join(outroot, "evidence", f"{pid}.json"), "w") as f:
         json.dump(ev, f, indent=1, default=str)
 
     # ---- report
